@@ -132,6 +132,7 @@ func e2Session(args []string) int {
 			return 4
 		}
 		ctl.mark("PHASE open-done")
+		scratch := map[string][]byte{}
 		// sync mode: the last session of every second run is driven by three CONCURRENT clients that own disjoint keys
 		// (per key the calls stay ordered, so the per-key oracle is unchanged); everything else about the session is the same
 		if (*mode == "sync" || *mode == "async") && !*big && !*bigSync && s == sessions-1 && *seed%2 == 0 {
@@ -258,6 +259,13 @@ func e2Session(args []string) int {
 					v = []byte(fmt.Sprintf("s%d.%d-%s", s, i, strings.Repeat("y", n)))
 				}
 			}
+			// one put in three goes through ONE scratch buffer per key that the caller serialises into again and again (the
+			// database keeps the slices it is given, so the buffer is only rewritten while no flush is running, and only
+			// after the call has been announced); values sent that way always have the same length
+			viaScratch := kind == "put" && !bigNow && !bigSyncNow && len(v) > 0 && len(v) <= 96 && r.Intn(3) == 0 && simpledb.VerifFlushIdle()
+			if viaScratch {
+				v = append(v, bytes.Repeat([]byte{'.'}, 96-len(v))...)
+			}
 			vs := hex.EncodeToString(v)
 			if *big || *bigSync {
 				// keep the marker small: the value is identified by its hash
@@ -265,6 +273,17 @@ func e2Session(args []string) int {
 				vs = "sha:" + hex.EncodeToString(h[:8])
 			}
 			ctl.mark("INV %d %s %s %s", opIdx, kind, hex.EncodeToString([]byte(k)), vs)
+			if viaScratch {
+				ctl.mark("SCRATCH %d", opIdx)
+				// only now, as part of the announced call, is the caller's buffer rewritten
+				sb, ok := scratch[k]
+				if !ok {
+					sb = make([]byte, 96)
+					scratch[k] = sb
+				}
+				copy(sb, v)
+				v = sb
+			}
 			var e error
 			switch kind {
 			case "del":
@@ -503,6 +522,7 @@ type e2State struct {
 	concStart       int            // index of the first op of the concurrent-clients phase (-1: not begun)
 	owner           map[string]int // hex key -> client that owns it in the concurrent-clients phase
 	concurrent      int            // sessions driven by concurrent clients
+	scratchPuts     int            // puts whose value was handed over in a reused caller buffer
 	maxInflight     int
 	opErrUnexpected []string
 }
@@ -596,6 +616,8 @@ func (s *e2State) marker(m string) {
 		case "compaction.reflected":
 			s.compE++
 		}
+	case "SCRATCH":
+		s.scratchPuts++
 	case "OWNER":
 		if len(f) >= 3 {
 			var cl int
@@ -880,6 +902,7 @@ func e2Judge(job e2Job, keys []string, rbuf, wbuf uint64, hashVals bool, c *fw.C
 type e2Summary struct {
 	contJudged                          int
 	concurrent, maxInflight             int
+	scratchPuts                         int
 	mutations, images, distinct, judged int
 	byPhase                             map[string]int
 	verdicts                            map[string]*e2Verdict
@@ -957,6 +980,7 @@ func e2RunSession(c *fw.Case, cfg e2Config) *e2Summary {
 	})
 	sum.ops = len(st.ops)
 	sum.concurrent, sum.maxInflight = st.concurrent, st.maxInflight
+	sum.scratchPuts = st.scratchPuts
 	sum.opsList = append([]e2Op{}, st.ops...)
 	if len(rp.Problems) > 0 {
 		sum.problems = rp.Problems
